@@ -286,13 +286,24 @@ theorem iterate_facts (outs : List Outcomes) (n : Nat) (hn : 2 ≤ n) (eps : Rat
 
 /-! ## The starting vector -/
 
+/-- Whatever `double` was stored — NaN, ±Inf, negative, zero, denormal, ≥ 1 — the value the
+iteration starts from lies strictly between 0 and 1. -/
+theorem restoredOf_range (v : StoredProb) : 0 < restoredOf v ∧ restoredOf v < 1 := by
+  cases v with
+  | fin q =>
+    simp only [restoredOf]
+    split
+    · rename_i h; exact h
+    · decide +kernel
+  | nan => decide +kernel
+  | posInf => decide +kernel
+  | negInf => decide +kernel
+
 theorem restored_pos (pcs : List PerClass) : ∀ x ∈ restored pcs, 0 < x := by
   intro x hx
   simp only [restored, List.mem_map] at hx
   obtain ⟨pc, _, rfl⟩ := hx
-  split
-  · rename_i h; exact h.1
-  · decide +kernel
+  exact (restoredOf_range pc.prob).1
 
 theorem startVec_facts (pcs : List PerClass) (h : 0 < pcs.length) :
     (startVec pcs).length = pcs.length ∧ sumRat (startVec pcs) = 1 ∧
